@@ -326,6 +326,26 @@ CHECKS = {
         note='trusted: the 60-line reference reader (leftmost regex match on '
              'the whole remaining stream)',
         design='3/C19'),
+    'C20': dict(
+        level='exploration',
+        technique='runtime monitoring: recording endpoints on real loopback '
+                  'TCP/UNIX sockets at both ends of every forward, '
+                  'per-connection stream identity and pairing, permission '
+                  'grid oracle, /proc socket census, cuts of the in-memory '
+                  'SSH wire at record boundaries',
+        text='Self-identifying streams are pushed through local, remote, '
+             'SOCKS4/4a/5 and direct-API forwards over TCP and UNIX sockets '
+             'in every half-close/close/abort order (peer answering only '
+             'after the EOF), with delayed confirmations, hostile SOCKS '
+             'clients and connection loss incl. between forward request and '
+             'reply; permission decisions are judged against '
+             'authorized_keys/certificate/callback settings with a decoy '
+             'destination; listening sockets and socket fds are counted '
+             'before and after.',
+        note='trusted: the kernel loopback; quiescence with real sockets is '
+             'three quiet 5 ms polls, so a relay slower than that shows as '
+             'inconclusive hang, never as data loss',
+        design='3/C20'),
 }
 
 REASON_TODO = 'check not built yet in this session (see DESIGN.md section 3)'
